@@ -504,7 +504,7 @@ class TT():
                         pad2 = (0 if i == len(
                             self.__N)-1 else self.__R[i+1], 0, 0, 0, 0 if i == 0 else self.R[i], 0)
                         cores.append(tnf.pad(self.cores[i], pad1)+tnf.pad(
-                            tn.ones((1, self.__N[i], 1), dtype=self.cores[i].dtype, device=self.cores[i].device), pad2))
+                            tn.ones((1, self.__N[i], 1), dtype=tn.promote_types(self.cores[i].dtype, other.cores[0].dtype), device=self.cores[i].device), pad2))
 
                     for k, i in zip(range(len(other.cores)), range(len(self.cores)-len(other.cores), len(self.cores))):
                         if other.N[k] == self.__N[i]:
@@ -642,7 +642,7 @@ class TT():
                         pad2 = (0 if i == len(
                             self.__N)-1 else self.__R[i+1], 0, 0, 0, 0 if i == 0 else self.R[i], 0)
                         cores.append(tnf.pad(self.cores[i], pad1)+tnf.pad((-1 if i == 0 else 1)*tn.ones(
-                            (1, self.__N[i], 1), dtype=self.cores[i].dtype, device=self.cores[i].device), pad2))
+                            (1, self.__N[i], 1), dtype=tn.promote_types(self.cores[i].dtype, other.cores[0].dtype), device=self.cores[i].device), pad2))
 
                     for k, i in zip(range(len(other.cores)), range(len(self.cores)-len(other.cores), len(self.cores))):
                         if other.N[k] == self.__N[i]:
@@ -763,7 +763,7 @@ class TT():
 
                     cores_new = []
                     for i in range(len(self.cores)-len(other.cores)):
-                        cores_new.append(self.cores[i]*1)
+                        cores_new.append((self.cores[i]*1).to(tn.promote_types(self.cores[i].dtype, other.cores[0].dtype)))
 
                     for k, i in zip(range(len(other.cores)), range(len(self.cores)-len(other.cores), len(self.cores))):
                         if other.N[k] == self.__N[i]:
